@@ -88,6 +88,12 @@ async def run_history(sc):
                 # another client object for the same agent, created later in the same process: it starts from nothing (nothing is shared)
                 c = Client("192.0.2.1", drv_usm.make_creds(sc), sender=sender, engine_id=cfg_ctx)
                 events.append(dict(e="newclient"))
+            elif step == "switch":
+                # the same client leaves SNMPv3 for v2c and comes back: the v3 message layer is created anew and knows nothing (as a new client)
+                from puresnmp import V2C
+                c.configure(credentials=V2C("public"))
+                c.configure(credentials=drv_usm.make_creds(sc))
+                events.append(dict(e="relayer"))
             elif step == "reboot":
                 ag.reboot()
                 events.append(dict(e="reboot"))
